@@ -42,7 +42,11 @@ type outcome struct {
 
 func (o outcome) line() string {
 	if o.class == "ok" {
-		return sxList("ok", o.value, sxList(o.events...))
+		v := o.value
+		if v == "" {
+			v = "(ill-formed)"
+		}
+		return sxList("ok", v, sxList(o.events...))
 	}
 	return sxList("fail", o.class, sxList(o.events...))
 }
@@ -143,7 +147,7 @@ func runBackend(b backend, eng *engine, d ast.Expr, vals map[string]*val.Val, wa
 		return
 	}
 	o.class = "ok"
-	o.wf = wfVal(res, want, "result")
+	o.wf = safeWf(res, want)
 	if o.wf == "" {
 		func() {
 			defer func() {
@@ -249,6 +253,10 @@ func encTVars(vars []envVar) string {
 // oracles for C01 (well-formed result of the inferred type on every back end), C02 (failure
 // classes), C03 (back ends agree).
 func evalCases(eng *engine, vars []envVar, vals map[string]*val.Val, src string, tag string) []Case {
+	if guardBegin("run "+src) {
+		return []Case{crashCase("run " + src)}
+	}
+	defer guardEnd()
 	var out []Case
 	parsed, perr := parseSrc(src)
 	human := src
@@ -319,6 +327,10 @@ func evalCases(eng *engine, vars []envVar, vals map[string]*val.Val, src string,
 			if outs[i].line() != ref.line() {
 				rc.Oracle = fmt.Sprintf("%s and %s differ: %s vs %s", backends[0].name, backends[i].name, short(ref.line()), short(outs[i].line()))
 				rc.OracleID = "backend-divergence"
+				// the sequence of host-function invocations alone (property C06)
+				if strings.Join(callsOnly(outs[i].events), " ") != strings.Join(callsOnly(ref.events), " ") {
+					rc.OracleID = "backend-divergence-calls"
+				}
 				break
 			}
 		}
@@ -438,4 +450,24 @@ func init() {
 			return cs
 		},
 	})
+}
+
+// safeWf: the well-formedness walk itself can fault on a value whose tag lies about its layout.
+func safeWf(v *val.Val, want *types.Type) (res string) {
+	defer func() {
+		if r := recover(); r != nil {
+			res = fmt.Sprintf("walking the result faults (a tag that does not match the value's layout): %v", r)
+		}
+	}()
+	return wfVal(v, want, "result")
+}
+
+func callsOnly(evs []string) []string {
+	var xs []string
+	for _, e := range evs {
+		if strings.HasPrefix(e, "(call ") {
+			xs = append(xs, e)
+		}
+	}
+	return xs
 }
